@@ -81,6 +81,10 @@ pub enum CaseDesc {
     /// class} x {canonical, serialized, case variants, padded, prefixed spellings}. Whether a name
     /// is known is a fact about (class, name), never about the name alone or a similar name.
     NearName { base: usize, x: usize, y: usize, nested: bool },
+    /// one instance: a padding string of `pad` bytes, then (in name order) the first alphabet
+    /// value of type `ty` - every value type starting at every offset in windows around the
+    /// block sizes readers and writers buffer by
+    Position { ty: String, pad: usize },
     /// text assembled from fragments (whitespace, CDATA delimiters, markup, non-ASCII): every
     /// sequence of up to three fragments, as an instance name, a String value, a Content URI and
     /// a Font family
@@ -102,6 +106,18 @@ pub fn text_cases() -> Vec<CaseDesc> {
             out.push(CaseDesc::Text { frags: vec![a, b] });
             for c in 0..n {
                 out.push(CaseDesc::Text { frags: vec![a, b, c] });
+            }
+        }
+    }
+    out
+}
+
+pub fn position_cases(types: &[VariantType]) -> Vec<CaseDesc> {
+    let mut out = Vec::new();
+    for (centre, half) in [(4096usize, 24usize), (8192, 24), (16384, 8), (65536, 8)] {
+        for pad in (centre - 2 * half)..=centre {
+            for t in types {
+                out.push(CaseDesc::Position { ty: vals::type_name(*t), pad });
             }
         }
     }
@@ -367,6 +383,20 @@ pub fn build_plan(desc: &CaseDesc, codec: Codec) -> Plan {
             Plan {
                 nodes: vec![node(0, *x, None), node(1, *y, if *nested { Some(0) } else { None })],
                 roots: RootSel::Nodes(if *nested { vec![0] } else { vec![0, 1] }),
+            }
+        }
+        CaseDesc::Position { ty, pad } => {
+            let vt = vt_by_name(ty);
+            let alpha = alphabet(vt, codec, false);
+            let v = alpha.get(1).or_else(|| alpha.first()).expect("alphabet").v.clone();
+            Plan {
+                nodes: vec![PNode {
+                    class: "ZzUnknown".to_owned(),
+                    name: "pos".to_owned(),
+                    parent: None,
+                    props: vec![("A_pad".to_owned(), PVal::V(Variant::String("p".repeat(*pad)))), ("B_val".to_owned(), PVal::V(v.clone())), ("C_after".to_owned(), PVal::V(v))],
+                }],
+                roots: RootSel::Nodes(vec![0]),
             }
         }
         CaseDesc::Text { frags } => {
@@ -1114,6 +1144,7 @@ pub fn label_of(desc: &CaseDesc) -> String {
             format!("near|{}.{}|{}.{}|{}", s[*x].0, s[*x].1, s[*y].0, s[*y].1, if *nested { "nested" } else { "siblings" })
         }
         CaseDesc::Text { frags } => format!("text|{:?}", frags),
+        CaseDesc::Position { ty, pad } => format!("position|{}|{}", ty, pad),
     }
 }
 
@@ -1140,6 +1171,7 @@ pub fn class_of(desc: &CaseDesc) -> String {
         CaseDesc::Name { .. } => "name".to_owned(),
         CaseDesc::NearName { base, .. } => format!("near-name:{}", near_sites(*base)[0].1),
         CaseDesc::Text { .. } => "text".to_owned(),
+        CaseDesc::Position { ty, .. } => format!("position:{}", ty),
     }
 }
 
